@@ -1,4 +1,6 @@
 import Dcg.Proofs.Enum
+import Dcg.Proofs.EnumSites
+import Dcg.Props.C09Order
 import Dcg.Props.C07
 import Dcg.Props.C10
 /-
@@ -12,7 +14,7 @@ JSON values, `x-enum-varnames`), `cfg` the resolver options, `E` the case maps (
 -/
 namespace Dcg.Props.C09
 open Dcg.Py.Ident Dcg.Model.Names Dcg.Model.Enum Dcg.Model.Escape Dcg.Gen.EscTables
-open Dcg.Proofs.Names Dcg.Proofs.Enum
+open Dcg.Proofs.Names Dcg.Proofs.Enum Dcg.Proofs.EnumSites
 
 /-! ### values -/
 
@@ -33,7 +35,7 @@ theorem enum_members_read_back (E : Env) (cfg : Cfg) (o : EnumObj) (ms : List Me
     (h : parseEnum E cfg o = .ok (ms, nullable)) :
     ms.map (fun m => evalDefault m.2) = (enumTimes o).1.map some ∧ nullable = (enumTimes o).2 := by
   unfold parseEnum at h
-  cases hf : foldMembers E cfg o (enumTimes o).1 0 [] with
+  cases hf : foldMembers E cfg o (enumTimes o).1 0 jsonInit with
   | ok ms' =>
     rw [hf] at h
     simp only [Res.map, Res.ok.injEq, Prod.mk.injEq] at h
@@ -117,29 +119,77 @@ theorem enum_alias_witness :
 
 /-! ### names -/
 
-/-- FULL STRENGTH (C07 with the enum resolver): every member name is an identifier, no keyword, not
-`mro`, does not start with `_`, and the member names of one class are pairwise distinct. -/
+/-- THE CALL SITES of the enum resolver, as read off the source (`Dcg.Gen.EnumSites`): exactly the two reviewed
+callers (`JsonSchemaParser.parse_enum` — JSON Schema and, by inheritance, OpenAPI — and `GraphQLParser.parse_enum`;
+a third caller has to be reviewed and modelled first), the resolver's `get_valid_name` and every caller have the
+recognised shape (the set assigned before the loop is what is passed as `excludes=`, every returned name is added
+to it), and at EVERY site `mro` is reserved: by the resolver itself or by the set the site starts from. -/
+theorem enum_call_sites_reviewed :
+    Dcg.Gen.EnumSites.sites.map (·.name) = ["GraphQLParser.parse_enum", "JsonSchemaParser.parse_enum"] ∧
+    Dcg.Gen.EnumSites.resolverRecognised = true ∧
+    ∀ s ∈ Dcg.Gen.EnumSites.sites, s.recognised = true ∧ s.passesSet = true ∧ s.addsResult = true ∧
+      mro ∈ Dcg.Gen.EnumSites.resolverExcludes ++ s.init := by
+  decide
+
+/-- FULL STRENGTH, every call site: whatever list of entries the loop of a site runs over (any schema object, any
+options with a legal prefix), started from THAT site's excludes, every member name is an identifier, no keyword,
+not `mro`, does not start with `_`, and the member names of one class are pairwise distinct. -/
+theorem enum_names_legal_distinct_every_site (s : Dcg.Gen.EnumSites.Site) (hs : s ∈ Dcg.Gen.EnumSites.sites)
+    (E : Env) (cfg : Cfg) (o : EnumObj) (vs : List JVal) (i : Nat) (ms : List Member)
+    (hp : PrefixOK cfg) (hE : CaseOK E) (h : foldMembers E cfg o vs i s.init = .ok ms) :
+    (∀ m ∈ ms, isIdentifier m.1 = true ∧ isKeyword m.1 = false ∧ m.1 ≠ mro ∧ m.1.head? ≠ some '_') ∧
+    (ms.map (·.1)).Pairwise (· ≠ ·) := by
+  have := fold_names_legal_distinct hp hE s.init (enum_call_sites_reviewed.2.2 s hs).2.2.2 vs i ms h
+  exact ⟨this.1, this.2.1⟩
+
+/-- FULL STRENGTH, the JSON Schema / OpenAPI site (C07 with the enum resolver): every member name is an
+identifier, no keyword, not `mro`, does not start with `_`, and the member names of one class are pairwise distinct. -/
 theorem enum_names_legal_distinct (E : Env) (cfg : Cfg) (o : EnumObj) (ms : List Member) (nullable : Bool)
     (hp : PrefixOK cfg) (hE : CaseOK E) (h : parseEnum E cfg o = .ok (ms, nullable)) :
     (∀ m ∈ ms, isIdentifier m.1 = true ∧ isKeyword m.1 = false ∧ m.1 ≠ mro ∧ m.1.head? ≠ some '_') ∧
     (ms.map (·.1)).Pairwise (· ≠ ·) := by
   unfold parseEnum at h
-  cases hf : foldMembers E cfg o (enumTimes o).1 0 [] with
+  cases hf : foldMembers E cfg o (enumTimes o).1 0 jsonInit with
   | ok ms' =>
     rw [hf] at h
     simp only [Res.map, Res.ok.injEq, Prod.mk.injEq] at h
     obtain ⟨h1, _⟩ := h
     subst h1
-    have := members_names
-      (fun r => isIdentifier r = true ∧ isKeyword r = false ∧ r ≠ mro ∧ r.head? ≠ some '_')
-      (fun src excl r hr => by
-        have hl := Dcg.Props.C07.result_legal E .enum cfg src excl false false hp hE r hr
-        exact ⟨hl.1, hl.2.1, hl.2.2.2 rfl,
-          Dcg.Props.C07.result_no_leading_underscore E .enum cfg src excl false hp hE r hr⟩)
-      _ _ _ _ hf
+    have := fold_names_legal_distinct hp hE jsonInit (by decide) _ _ _ hf
     exact ⟨this.1, this.2.1⟩
   | outOfFuel => rw [hf] at h; simp [Res.map] at h
   | error => rw [hf] at h; simp [Res.map] at h
+
+/-- FULL STRENGTH, the GraphQL site: the members of the Enum class of a GraphQL enum type have legal, distinct
+names (not `mro`, no keyword, no leading `_`) and, read back by Python, exactly the value names of the type, in
+the order in which the loop met them. -/
+theorem graphql_enum_names_and_values (E : Env) (cfg : Cfg) (names : List (List Char)) (ms : List Member)
+    (hp : PrefixOK cfg) (hE : CaseOK E) (h : parseGraphqlEnum E cfg names = .ok ms) :
+    (∀ m ∈ ms, isIdentifier m.1 = true ∧ isKeyword m.1 = false ∧ m.1 ≠ mro ∧ m.1.head? ≠ some '_') ∧
+    (ms.map (·.1)).Pairwise (· ≠ ·) ∧
+    ms.map (fun m => evalDefault m.2) = names.map (fun n => some (.str n)) := by
+  unfold parseGraphqlEnum at h
+  have := fold_names_legal_distinct hp hE graphqlInit (by decide) _ _ _ h
+  refine ⟨this.1, this.2.1, ?_⟩
+  have hd := graphql_fold_defaults names names 0 graphqlInit ms h
+  have e : ms.map (fun m => evalDefault m.2) = (ms.map (·.2)).map evalDefault := by simp
+  rw [e, hd]
+  simp [member_read_back]
+
+/-- non-vacuity: GraphQL values that only SANITISE to `mro` (`MRO`, `Mro` under
+snake case; `_mro` with the special prefix removed) next to the literal one -/
+example :
+    parseGraphqlEnum pyEnv { snakeCase := true } [['M', 'R', 'O'], ['M', 'r', 'o'], ['m', 'r', 'o']] =
+      .ok [(['m', 'r', 'o', '_', '1'], .lit ['\'', 'M', 'R', 'O', '\'']), (['m', 'r', 'o', '_', '2'], .lit ['\'', 'M', 'r', 'o', '\'']),
+           (['m', 'r', 'o', '_'], .lit ['\'', 'm', 'r', 'o', '\''])] ∧
+    parseGraphqlEnum pyEnv { removePrefix := true } [['_', 'm', 'r', 'o']] =
+      .ok [(['m', 'r', 'o', '_', '1'], .lit ['\'', '_', 'm', 'r', 'o', '\''])] := by
+  decide +kernel
+
+/-- the GraphQL member loop terminates and never raises -/
+theorem graphql_enum_total (E : Env) (cfg : Cfg) (names : List (List Char)) (hp : PrefixOK cfg) (hE : CaseOK E) :
+    parseGraphqlEnum E cfg names ≠ .outOfFuel :=
+  fold_terminates hp hE _ _ _
 
 /-- non-vacuity: reserved and colliding names in one enum (`mro`, a keyword, two entries that sanitise alike) -/
 example : parseEnum pyEnv {} ⟨some strT, [.str ['m', 'r', 'o'], .str ['i', 'f'], .str ['a', ' '], .str ['a', '-']], []⟩ =
@@ -151,34 +201,11 @@ example : parseEnum pyEnv {} ⟨some strT, [.str ['m', 'r', 'o'], .str ['i', 'f'
 theorem enum_members_terminate (E : Env) (cfg : Cfg) (o : EnumObj) (hp : PrefixOK cfg) (hE : CaseOK E) :
     parseEnum E cfg o ≠ .outOfFuel := by
   unfold parseEnum
-  suffices h : ∀ vs i excl, foldMembers E cfg o vs i excl ≠ .outOfFuel by
-    intro hc
-    cases hf : foldMembers E cfg o (enumTimes o).1 0 [] with
-    | ok _ => rw [hf] at hc; simp [Res.map] at hc
-    | outOfFuel => exact h _ _ _ hf
-    | error => rw [hf] at hc; simp [Res.map] at hc
-  intro vs
-  induction vs with
-  | nil => intro i excl h; simp [foldMembers] at h
-  | cons v vs ih =>
-    intro i excl h
-    rw [foldMembers] at h
-    split at h
-    · rename_i src _
-      split at h
-      · rename_i n _
-        cases hr : foldMembers E cfg o vs (i + 1) (n :: excl) with
-        | ok _ => rw [hr] at h; simp [Res.map] at h
-        | outOfFuel => exact ih _ _ hr
-        | error => rw [hr] at h; simp [Res.map] at h
-      · rename_i hn
-        exact Dcg.Props.C07.retry_terminates E .enum cfg src excl false false hp hE hn
-      · cases h
-    · rename_i hs
-      unfold nameSource at hs
-      repeat' split at hs
-      all_goals cases hs
-    · cases h
+  intro hc
+  cases hf : foldMembers E cfg o (enumTimes o).1 0 jsonInit with
+  | ok _ => rw [hf] at hc; simp [Res.map] at hc
+  | outOfFuel => exact fold_terminates hp hE _ _ _ hf
+  | error => rw [hf] at hc; simp [Res.map] at hc
 
 /-! ### literal mode -/
 
@@ -523,5 +550,114 @@ theorem defining_module_dotted_witness :
   have := h rfl ['r'] (by decide)
   revert this
   decide
+
+/-! ### order of the post-passes of Parser.parse -/
+
+section PassOrder
+open Dcg.Model.ParsePasses Dcg.Proofs.ParsePasses Dcg.Props.C09Order
+
+/-- the translator found the per-module loop `for module_, models in module_models:` of `Parser.parse` (exactly once) -/
+theorem parse_passes_recognised : Dcg.Gen.ParsePasses.recognised = true := by decide
+
+/-- THE ORDER OBLIGATION, re-checked by the kernel on the call list extracted from parser/base.py on every run: every call of
+the loop is a reviewed pass, unguarded, and the reviewed constraints hold (`Dcg.Model.ParsePasses.constraints`: in
+particular `__set_default_enum_member` runs after `__change_from_import`, `__extract_inherited_enum`,
+`__set_reference_default_value_to_field`, `__reuse_model` and `__collapse_root_models`). Any other order breaks this theorem. -/
+theorem parse_pass_order_ok : orderOk Dcg.Gen.ParsePasses.calls = true := by decide
+
+/-- WHY the order matters (abstract semantics of the four passes, all states, all pass lists): take ANY state the parser can
+hand to the loop (`wf`, `noCopies`: every data type refers to a model of the module and is registered with it, no default
+converted yet) — any number of Enum classes with any duplicates, any root models, any fields — any option vector with
+--set-default-enum-member, and ANY list of passes in which the conversion runs once, after
+`__set_reference_default_value_to_field`, `__reuse_model` and `__collapse_root_models`, and the merge runs before the fold
+(`coreOk`, a part of `orderOk`). Then in the final state every field whose data type is an Enum class (directly or through a
+folded root) has no raw default left, and a member default is a member of THAT class, which is still a class of the module. -/
+theorem ordered_passes_defaults_are_live_members (o : Opts) (s : St) (ps : List Pass)
+    (ho : o.sdem = true) (hw : wf s = true) (hn : noCopies s = true) (hok : coreOk ps = true) :
+    good (run o ps s) = true := by
+  obtain ⟨hc, _, h1, h2, h3, h4⟩ := coreOk_iff ps hok
+  obtain ⟨s', hrun, hw', _⟩ := run_factor o ho ps s hw (Or.inl ⟨hn, h4⟩) hc h1 h2 h3
+  rw [hrun]
+  exact good_sdem s' hw'
+
+/-- the same with --collapse-root-models and every root a field refers to known to the module: NO field is left behind a
+root model and EVERY default (the field's own or the one taken over from the root's definition) is a member of the field's
+class, which is a class of the module -/
+theorem ordered_passes_collapse_all_members (o : Opts) (s : St) (ps : List Pass)
+    (ho : o.sdem = true) (hcol : o.collapse = true) (hw : wf s = true) (hn : noCopies s = true)
+    (hk : rootsKnown s = true) (hok : coreOk ps = true) : allMember (run o ps s) = true := by
+  obtain ⟨hc, hcc, h1, h2, h3, h4⟩ := coreOk_iff ps hok
+  obtain ⟨s', hrun, hw', hnr⟩ := run_factor o ho ps s hw (Or.inl ⟨hn, h4⟩) hc h1 h2 h3
+  rw [hrun]
+  exact allMember_sdem s' hw' (hnr (Or.inr ⟨hcol, hk, hcc⟩))
+
+/-- the two statements for the pass list of the code as it is now (from `parse_pass_order_ok`, so re-proved whenever the list changes) -/
+theorem parse_defaults_are_live_members (o : Opts) (s : St) (ho : o.sdem = true) (hw : wf s = true) (hn : noCopies s = true) :
+    good (run o realPasses s) = true ∧
+    (o.collapse = true → rootsKnown s = true → allMember (run o realPasses s) = true) := by
+  have hcore : coreOk realPasses = true := orderOk_core _ parse_pass_order_ok
+  exact ⟨ordered_passes_defaults_are_live_members o s realPasses ho hw hn hcore,
+         fun hcol hk => ordered_passes_collapse_all_members o s realPasses ho hcol hw hn hk hcore⟩
+
+/-- non-vacuity: the hypotheses hold of states with duplicated enums and enums behind roots; the run of the real list merges
+class 2 into class 1 and writes `member 1 …` for the field of the dropped copy, folds roots 5 and 6 and converts the default
+the definition of root 5 carried -/
+example :
+    wf mixedState = true ∧ noCopies mixedState = true ∧ rootsKnown mixedState = true ∧ coreOk realPasses = true ∧
+    (run allOn realPasses mixedState).fields =
+      [⟨.enum 1, .member 1 0⟩, ⟨.enum 1, .member 1 1⟩, ⟨.copy 1, .member 1 3⟩, ⟨.copy 3, .member 3 4⟩, ⟨.enum 3, .none⟩] := by
+  decide
+
+/-- REFUTATION of the other order, --reuse-model: converting before `__reuse_model` leaves the field of the dropped copy with a
+member of class 2, which is no class of the module any more (`second: Optional[First] = Second.p`, NameError at import) -/
+theorem conversion_before_reuse_dangles :
+    wf dupState = true ∧ noCopies dupState = true ∧
+    (run allOn [.setDefaultEnumMember, .reuseModel] dupState).fields = [⟨.enum 1, .member 1 0⟩, ⟨.enum 1, .member 2 1⟩] ∧
+    live (run allOn [.setDefaultEnumMember, .reuseModel] dupState).classes 2 = false ∧
+    good (run allOn [.setDefaultEnumMember, .reuseModel] dupState) = false ∧
+    good (run allOn [.reuseModel, .setDefaultEnumMember] dupState) = true := by
+  decide
+
+/-- REFUTATION of the other order, --collapse-root-models: converting before `__collapse_root_models` leaves the raw default on
+a field that now refers to the Enum class itself (`maybe: Optional[MaybeEnum] = 'y'`) -/
+theorem conversion_before_collapse_stays_raw :
+    wf rootState = true ∧ noCopies rootState = true ∧
+    (run allOn [.setReferenceDefaultValueToField, .setDefaultEnumMember, .collapseRootModels] rootState).fields =
+      [⟨.copy 1, .raw 0⟩, ⟨.copy 1, .raw 3⟩] ∧
+    good (run allOn [.setReferenceDefaultValueToField, .setDefaultEnumMember, .collapseRootModels] rootState) = false ∧
+    allMember (run allOn [.setReferenceDefaultValueToField, .collapseRootModels, .setDefaultEnumMember] rootState) = true := by
+  decide
+
+/-- REFUTATION of a third order: folding the root before `__set_reference_default_value_to_field` loses the default that the
+root's definition carries (the field ends with no default at all) -/
+theorem collapse_before_reference_default_loses_it :
+    (run allOn [.collapseRootModels, .setReferenceDefaultValueToField, .setDefaultEnumMember] rootState).fields =
+      [⟨.copy 1, .member 1 0⟩, ⟨.copy 1, .none⟩] ∧
+    (run allOn [.setReferenceDefaultValueToField, .collapseRootModels, .setDefaultEnumMember] rootState).fields =
+      [⟨.copy 1, .member 1 0⟩, ⟨.copy 1, .member 1 3⟩] := by
+  decide
+
+/-- REFUTATION of a fourth order: merging duplicates AFTER the roots were folded does not reach the copied data type; the field
+keeps referring to the dropped class 2 and its default becomes a member of it (`s: Optional[Tint] = Tint.q`, no class `Tint`) -/
+theorem collapse_before_reuse_dangles :
+    wf dupRootState = true ∧ noCopies dupRootState = true ∧
+    (run allOn [.collapseRootModels, .reuseModel, .setDefaultEnumMember] dupRootState).fields =
+      [⟨.enum 1, .member 1 0⟩, ⟨.copy 2, .member 2 1⟩] ∧
+    good (run allOn [.collapseRootModels, .reuseModel, .setDefaultEnumMember] dupRootState) = false ∧
+    good (run allOn [.reuseModel, .collapseRootModels, .setDefaultEnumMember] dupRootState) = true := by
+  decide
+
+/-- the predicate rejects those orders (and accepts nothing that lacks a pass or guards one): the list of the code with the
+conversion moved in front of `__reuse_model`, and the list with the conversion under an `if` -/
+example :
+    let moved : List Call := (Dcg.Gen.ParsePasses.calls.filter (·.pass != .setDefaultEnumMember)).flatMap
+      (fun c => if c.pass = .reuseModel then [⟨.setDefaultEnumMember, false⟩, c] else [c])
+    orderOk moved = false ∧ firstViolated moved = some (.reuseModel, .setDefaultEnumMember) ∧
+    orderOk (Dcg.Gen.ParsePasses.calls.map (fun c => if c.pass = .setDefaultEnumMember then ⟨c.pass, true⟩ else c)) = false ∧
+    orderOk (Dcg.Gen.ParsePasses.calls.filter (·.pass != .collapseRootModels)) = false ∧
+    orderOk (Dcg.Gen.ParsePasses.calls ++ [⟨.other "new_pass", false⟩]) = false := by
+  decide
+
+end PassOrder
 
 end Dcg.Props.C09
